@@ -363,7 +363,8 @@ def ea_block_obligations(ctx, rep, rule="R15j"):
 
     def one(func, cls, env, facts, cv=None, holder=None):
         w = Walker(prog, ctx.resolver, call_value=cv, exact_loops=True, unroll=6, assumptions=dict(facts), max_paths=5000,
-                   inline=lambda fn, t, d: d < 2 and t.bound_cls is not None)
+                   inline=lambda fn, t, d: d < 3 and (t.bound_cls is not None or (fn.cls is None and fn.module.name.startswith("pygopherd")
+                                                                                       and fn.module.name not in ("pygopherd.logger", "pygopherd.GopherExceptions"))))
         if holder is not None:
             holder["w"] = w
         outs = set()
